@@ -50,16 +50,21 @@ type Txn struct {
 	Status  int               `json:"status,omitempty"`
 	NilHdrs bool              `json:"nil_headers,omitempty"` // pass a nil header map
 	Query   string            `json:"query,omitempty"`
+	// StoredReq (responses only): the request of the same sequence was captured
+	// before (APIStream.StoreRequest, what routing does for a full request), so the
+	// response-typed stream has a request object; otherwise GetRequest() is nil.
+	StoredReq bool `json:"stored_request,omitempty"`
 }
 
 // TxnResult: what the engine did with one transaction.
 type TxnResult struct {
-	Outcome  string   `json:"outcome"` // ok | error | panic | crash | timeout | not-run
-	Answered bool     `json:"answered,omitempty"`
-	NActions int      `json:"actions"`
-	Events   []Event  `json:"events"`
-	NEvents  int      `json:"n_events"`
-	Text     string   `json:"text,omitempty"` // error / panic text
+	Outcome  string    `json:"outcome"` // ok | error | panic | crash | timeout | not-run
+	Answered bool      `json:"answered,omitempty"`
+	NActions int       `json:"actions"`
+	Events   []Event   `json:"events"`
+	NEvents  int       `json:"n_events"`
+	Text     string    `json:"text,omitempty"`            // error / panic text
+	SelText  string    `json:"selection_probe,omitempty"` // the harness' own selection probe panicked (not a verdict)
 	SelReq   Selection `json:"selected_for_request"`
 	SelRes   Selection `json:"selected_for_response"`
 }
@@ -86,12 +91,17 @@ type Job struct {
 	Quotas map[string]string `json:"quota_files"` // file name -> YAML
 	Txns   []Txn             `json:"txns"`
 	Skip   map[int]bool      `json:"skip,omitempty"` // transactions already known to kill the process
+	// Gateway: contents of the gateway configuration file (exporters) the
+	// processors read at creation; "" = none.  RealClock: run on the real clock
+	// (Queue-like processors wait on the engine's clock).
+	Gateway   string `json:"gateway_config,omitempty"`
+	RealClock bool   `json:"real_clock,omitempty"`
 }
 
 // JobResult as reassembled by the parent.
 type JobResult struct {
-	Accepted   bool        `json:"accepted"`         // the validator path returned nil
-	LoadStatus string      `json:"load"`             // reject | accept | validator-panic | validator-crash | validator-timeout
+	Accepted   bool        `json:"accepted"` // the validator path returned nil
+	LoadStatus string      `json:"load"`     // reject | accept | validator-panic | validator-crash | validator-timeout
 	RejectText string      `json:"reject_text,omitempty"`
 	EngineLoad string      `json:"engine_load,omitempty"` // ok | error | panic | crash (only when accepted)
 	EngineText string      `json:"engine_text,omitempty"`
@@ -130,7 +140,7 @@ func setupEnv() {
 	zerolog.SetGlobalLevel(zerolog.Disabled)
 	environment.SetProcessorsDirectory(filepath.Join(repoDir(),
 		"proxy/src/services/lunar-engine/streams/processors/registry"))
-	context_manager.Get().SetMockClock()
+	context_manager.Get().SetMockClock().WithFileExporter(discardExporter{})
 	verifhook.SetEvent(func(kind string, args ...string) {
 		if kind != "proc" || len(args) < 4 {
 			return
@@ -151,6 +161,12 @@ func setupEnv() {
 }
 
 var evCount int
+
+// discardExporter stands for the file exporter (fluent-bit socket) of the gateway
+type discardExporter struct{}
+
+func (discardExporter) Write(b []byte) (int, error) { return len(b), nil }
+func (discardExporter) Close() error                { return nil }
 
 func writeFiles(base string, j *Job) error {
 	os.RemoveAll(base)
@@ -233,6 +249,18 @@ func childMain(batchFile, resultFile string) {
 		if err := writeFiles(base, j); err != nil {
 			panic(err)
 		}
+		if j.Gateway != "" {
+			gw := filepath.Join(base, "gateway_config.yaml")
+			os.WriteFile(gw, []byte(j.Gateway), 0o644)
+			environment.SetGatewayConfigPath(gw)
+		} else {
+			environment.SetGatewayConfigPath("")
+		}
+		if j.RealClock {
+			context_manager.Get().SetRealClock()
+		} else {
+			context_manager.Get().SetMockClock()
+		}
 		// the standalone validator's path
 		err, pan, txt := guarded(func() error {
 			vs, err := streams.NewValidationStream(base)
@@ -292,6 +320,25 @@ func childMain(batchFile, resultFile string) {
 	f.Close()
 }
 
+// pathOf: the path HAProxy reports next to url = host + path
+func pathOf(u string) string {
+	if i := strings.Index(u, "/"); i >= 0 {
+		return u[i:]
+	}
+	return ""
+}
+
+func copyHdrs(m map[string]string) map[string]string {
+	if m == nil {
+		return nil
+	}
+	c := make(map[string]string, len(m))
+	for k, v := range m {
+		c[k] = v
+	}
+	return c
+}
+
 func dirName(t publictypes.StreamType) string {
 	if t.IsRequestType() {
 		return "req"
@@ -321,7 +368,7 @@ func runTxn(st *streams.Stream, t *Txn) TxnResult {
 	err, pan, txt := guarded(func() error {
 		if t.Dir == "req" {
 			api = stream_types.NewRequestAPIStream(lunar_messages.OnRequest{
-				ID: id, SequenceID: id, Method: method, Scheme: "https", URL: t.URL, Query: t.Query,
+				ID: id, SequenceID: id, Method: method, Scheme: "https", URL: t.URL, Path: pathOf(t.URL), Query: t.Query,
 				Headers: hdrs, Body: t.Body, RawBody: []byte(t.Body), Time: time.Unix(1_700_000_000, 0),
 			}, shared)
 			acts.Request = &stream_config.RequestStream{}
@@ -330,17 +377,31 @@ func runTxn(st *streams.Stream, t *Txn) TxnResult {
 			if status == 0 {
 				status = 200
 			}
+			if t.StoredReq {
+				stream_types.NewRequestAPIStream(lunar_messages.OnRequest{
+					ID: id, SequenceID: id, Method: method, Scheme: "https", URL: t.URL, Path: pathOf(t.URL), Query: t.Query,
+					Headers: copyHdrs(hdrs), Body: t.Body, RawBody: []byte(t.Body), Time: time.Unix(1_699_999_999, 0),
+				}, shared).StoreRequest()
+			}
 			api = stream_types.NewResponseAPIStream(lunar_messages.OnResponse{
 				ID: id, SequenceID: id, Method: method, URL: t.URL, Status: status,
 				Headers: hdrs, Body: t.Body, RawBody: []byte(t.Body), Time: time.Unix(1_700_000_000, 0),
 			}, shared)
 			acts.Response = &stream_config.ResponseStream{}
 		}
+		// the selection probes are the harness' own calls: a panic in them is noted, it
+		// is not the engine's verdict (only what ExecuteFlow below does is)
 		res.SelReq = Selection{Start: []string{}, User: []string{}, End: []string{}}
-		if t.Dir == "req" {
-			res.SelReq = sel(st, api, publictypes.StreamTypeRequest)
+		res.SelRes = res.SelReq
+		if _, p, tx := guarded(func() error {
+			if t.Dir == "req" {
+				res.SelReq = sel(st, api, publictypes.StreamTypeRequest)
+			}
+			res.SelRes = sel(st, api, publictypes.StreamTypeResponse)
+			return nil
+		}); p {
+			res.SelText = tx
 		}
-		res.SelRes = sel(st, api, publictypes.StreamTypeResponse)
 		evMu.Lock()
 		evSink = &events
 		evCount = 0
